@@ -448,7 +448,7 @@ for _pid, _q, _t in [("C01", 60, 200), ("C02", 30, 120), ("C03", 100, 300), ("C1
                              "32 KiB read chunks per refill), BlockSize up to 1 MiB, same oracles.")
 
 # large decoder geometries (windows of 64 KiB..8 MiB, operands of up to a few MiB)
-for _pid in ("C04", "C06", "C07", "C17", "C18"):
+for _pid in ("C04", "C05", "C06", "C07", "C17", "C18"):
     CHECKS[_pid]["quick"]["tests"].append({"test": "Test%sLarge" % _pid, "checks": 80, "subchecks": 2})
     CHECKS[_pid]["thorough"]["tests"].append({"test": "Test%sLarge" % _pid, "checks": 200, "subchecks": 2})
     CHECKS[_pid]["rule"] += (" Plus large geometries: WindowSize 64 KiB..8 MiB (default), buffers of megabytes, literal runs and "
@@ -518,6 +518,10 @@ CHECKS["C07"]["rule"] += (" The large geometries include steady-state streams: 2
 CHECKS["C09"]["rule"] += (" The text is handed over as the front part of a larger buffer in three of four calls (behind it: the text "
                           "again, its last byte repeated, zeros); sa/sainv operands of LCP are nil, exact, or slices of another length "
                           "cut from one buffer.")
+CHECKS["C01"]["quick"]["tests"].append({"test": "TestC01Far", "checks": 12, "subchecks": 1})
+CHECKS["C01"]["thorough"]["tests"].append({"test": "TestC01Far", "checks": 20, "subchecks": 1})
+CHECKS["C01"]["rule"] += (" Plus TestC01Far: OSAP over 2.1-2.6 MiB of bytes uniform over 256 values with 20-60 planted copies (more than "
+                          "2^21 positions in one edge table, many blocks served from it); the blocks expand to the text.")
 CHECKS["C12"]["quick"]["tests"].append({"test": "TestC12Bracket", "checks": 8, "subchecks": 1})
 CHECKS["C12"]["thorough"]["tests"].append({"test": "TestC12Bracket", "checks": 60, "subchecks": 1, "once": True})
 CHECKS["C12"]["rule"] += (" Plus a suffix array of millions of entries with a handful of positions passed: 'W lo' 'W hi' followed by "
